@@ -39,6 +39,8 @@ def run(ctx, col, tier):
 
     from ..rules import stateless
     col.guard(stateless.check, ctx, col, "R-STATE", ("swcgeom.transforms.geometry", "swcgeom.transforms.base"))
+    from ..rules import ignoredparam
+    ignoredparam.run(ctx, col, ('swcgeom.transforms.geometry', 'swcgeom.utils.transforms', 'swcgeom.transforms.base'))
     col.guard(anchored, ctx, col)
     col.guard(shapes, ctx, col)
     col.guard(conj, ctx, col)
